@@ -11,6 +11,7 @@ from __future__ import annotations
 
 import json
 import re
+import time
 import warnings
 from urllib.parse import unquote
 
@@ -573,12 +574,14 @@ def rewrite_violation(p, mn, mx, out, s):
     return bad or None
 
 
-def stage_rewrite_search(chk, rewritten, per_case):
+def stage_rewrite_search(chk, rewritten, per_case, deadline=None):
     """Oracle search on the implementation; every failing (pattern, bounds, string) is classified by the Coq regions."""
     rng = chk.rng
     failing = []
     tried = 0
     for p, ast, mn, mx, out, out_ast in rewritten:
+        if deadline is not None and time.time() > deadline:
+            break
         seen = set()
         for _ in range(per_case):
             s = mutate(rng, sample_match(rng, out_ast))
@@ -658,54 +661,98 @@ def stage_kernel(chk, n):
     return {"cases": len(cases), "agree": agree}
 
 
-def stage_forbid(chk, n):
-    """to_json_schema on object schemas with readOnly properties: the not.required list it writes, and the Draft 4
-    verdict on objects with given keys, vs forbid_valid; sends_no_readonly evaluated as the OpenAPI meaning."""
+def c_strs(xs) -> str:
+    return clist([cstr(x) for x in xs], "str")
+
+
+def c_accepts(props, required, ro, closed, keys) -> str:
+    return f"converted_accepts {c_strs(props)} {c_strs(required)} {c_strs(ro)} {cbool(closed)} {c_strs(keys)}"
+
+
+def gen_required(rng, names, ro):
+    """required lists in which the read-only names sit next to each other, apart, or not at all."""
+    wr = [n for n in names if n not in ro]
+    mode = rng.choice(["adjacent", "adjacent", "apart", "random", "random", "none", "all"])
+    if mode == "none":
+        return []
+    if mode == "all":
+        out = list(names)
+        rng.shuffle(out)
+        return out
+    if mode == "adjacent":
+        block = list(ro)
+        rng.shuffle(block)
+        rest = [n for n in wr if rng.random() < 0.6]
+        k = rng.randint(0, len(rest))
+        return rest[:k] + block + rest[k:]
+    if mode == "apart":
+        out = []
+        pool = [n for n in wr]
+        rng.shuffle(pool)
+        for r in ro:
+            out.append(r)
+            if pool:
+                out.append(pool.pop())
+        return out
+    return [n for n in rng.sample(names, len(names)) if rng.random() < 0.5]
+
+
+def stage_rewrite_properties(chk, n):
+    """to_json_schema on object schemas with readOnly (requests) / writeOnly, x-writeOnly (responses) properties, required lists with
+    the restricted names adjacent / apart, open and closed additionalProperties: the not.required list it writes, and the Draft 4
+    verdict of the WHOLE converted schema on objects with given keys, vs converted_accepts / forbid_valid (Coq)."""
     import jsonschema
 
     from schemathesis.specs.openapi.converter import to_json_schema
 
     rng = chk.rng
-    names_pool = ["a", "b", "c", "d", "é"]
+    names_pool = ["id", "created_at", "name", "tag", "é", "n"]
     cases, exprs = [], []
     for _ in range(n):
+        names = rng.sample(names_pool, rng.randint(1, 5))
+        response = rng.random() < 0.3
+        marker = rng.choice(["writeOnly", "x-writeOnly"]) if response else "readOnly"
+        k = rng.choice([0, 1, 1, 2, 2, 2, 3, 3])
+        ro = names[: min(k, len(names))]
         props = {}
-        for name in rng.sample(names_pool, rng.randint(1, 4)):
+        order = list(names)
+        rng.shuffle(order)
+        for name in order:
             props[name] = {"type": "string"}
-            if rng.random() < 0.5:
-                props[name]["readOnly"] = True
-        ro = [k for k, v in props.items() if v.get("readOnly")]
-        if not ro:
-            continue
-        required = [k for k in props if rng.random() < 0.4]
+            if name in ro:
+                props[name][marker] = True
+        ro = [x for x in order if x in ro]  # dict order = the order forbid_properties sees
+        required = gen_required(rng, order, ro)
+        closed = rng.random() < 0.5
         schema = {"type": "object", "properties": props}
         if required:
             schema["required"] = required
-        keys = rng.sample(names_pool, rng.randint(0, 4))
-        cases.append((schema, ro, keys))
-        exprs.append(
-            f"(forbid_valid {clist([cstr(x) for x in ro], 'str')} {clist([cstr(k) for k in keys], 'str')}, "
-            f"sends_no_readonly {clist([cstr(x) for x in ro], 'str')} {clist([cstr(k) for k in keys], 'str')})"
-        )
+        if closed:
+            schema["additionalProperties"] = False
+        keys = [x for x in names_pool if rng.random() < 0.5]
+        if rng.random() < 0.4:  # exactly what a client may send
+            keys = [x for x in required if x not in ro] + [x for x in order if x not in ro and x not in required and rng.random() < 0.3]
+        cases.append((schema, order, required, ro, closed, keys, response))
+        exprs.append(f"({c_accepts(order, required, ro, closed, keys)}, sends_no_readonly {c_strs(ro)} {c_strs(keys)})")
     model = core.coq_eval(IMPORTS, exprs)
     agree = 0
     leaks = 0
-    for (schema, ro, keys), (m_valid, m_clean) in zip(cases, model):
-        conv = to_json_schema(schema, nullable_name="nullable")
-        case = {"schema": schema, "keys": keys}
-        chk.seen({"forbid": case}, len(ro) > 1)
+    for (schema, order, required, ro, closed, keys, response), (m_valid, m_clean) in zip(cases, model):
+        conv = to_json_schema(schema, nullable_name="nullable", is_response_schema=response)
+        case = {"schema": schema, "keys": keys, "response": response}
+        chk.seen({"rewrite_properties": case}, len(ro) > 1)
+        chk.count(f"rewrite_properties:restricted={len(ro)}:{'closed' if closed else 'open'}:{'response' if response else 'request'}")
         written = sorted((conv.get("not") or {}).get("required", []))
-        if written != sorted(ro) or any(k in conv.get("properties", {}) for k in ro) or any(k in conv.get("required", []) for k in ro):
-            chk.disagree("to_json_schema readOnly rewriting (not.required / properties / required)", case, conv, sorted(ro))
+        if written != sorted(ro) or any(k in conv.get("properties", {}) for k in ro):
+            chk.disagree("to_json_schema readOnly/writeOnly rewriting (not.required / properties)", case, conv, sorted(ro))
             continue
         obj = {k: "v" for k in keys}
-        only_not = {"not": conv["not"]}
-        real_valid = jsonschema.Draft4Validator(only_not).is_valid(obj)
+        real_valid = jsonschema.Draft4Validator(conv).is_valid(obj)
         if real_valid != bool(m_valid):
-            chk.disagree("Draft4 verdict of not.required vs forbid_valid", case, real_valid, bool(m_valid))
+            chk.disagree("Draft4 verdict of the converted object schema vs converted_accepts", case, {"converted": conv, "valid": real_valid}, bool(m_valid))
             continue
         agree += 1
-        if m_valid and not m_clean:
+        if m_valid and not m_clean and not response:
             leaks += 1
             chk.fail("converted request schema accepts an object that carries a readOnly property", {"schema": schema, "value": obj, "read_only": ro}, region="readonly_multiple")
     return {"cases": len(cases), "agree": agree, "objects_with_readonly_accepted": leaks}
@@ -726,12 +773,14 @@ def string_level_region(p: str) -> str:
     return "lazy_quantifier_multi" if lazy_in_multi(p) else "escaped_metachar_slicing"
 
 
-def stage_string_level(chk, n):
+def stage_string_level(chk, n, deadline=None):
     """Patterns OUTSIDE the concrete-syntax fragment of the AST model (escaped metacharacters, lazy quantifiers / (?...) groups on
     the multi-quantifier path): implementation only, property oracle, failures attributed to the two string-level findings."""
     rng = chk.rng
     stats = {"cases": 0, "rewritten": 0, "crashes_on_satisfiable": 0, "violations": 0}
     for _ in range(n):
+        if deadline is not None and time.time() > deadline:
+            break
         p, ast, mn, mx = gen_case(rng, plain=False)
         stats["cases"] += 1
         impl = impl_update(p, mn, mx)
@@ -783,32 +832,103 @@ def gen_string_schema(rng, for_header=False):
     return sch
 
 
+def gen_object_schema(rng, depth=0, resource=False):
+    """Object schema; resource=True: the usual resource shape with 2-3 readOnly properties that are also listed in required."""
+    pool = ["id", "created_at", "updated_at", "name", "tag", "meta", "n"]
+    names = rng.sample(pool, rng.randint(3, 5) if resource else rng.randint(1, 4))
+    n_ro = rng.choice([2, 2, 3]) if resource else rng.choice([0, 0, 1, 1, 2])
+    ro = names[: min(n_ro, len(names) - 1)]
+    order = list(names)
+    rng.shuffle(order)
+    props = {}
+    for name in order:
+        if name in ro:
+            sub = {"type": rng.choice(["integer", "string", "boolean"]), "readOnly": True}
+        elif depth == 0 and rng.random() < 0.3:
+            sub = gen_object_schema(rng, depth + 1, resource=rng.random() < 0.7)
+        elif rng.random() < 0.5:
+            sub = gen_string_schema(rng) if not resource else {"type": "string", "maxLength": rng.choice([3, 5, 8])}
+        else:
+            sub = {"type": rng.choice(["integer", "boolean"])}
+        if name not in ro and "properties" not in sub and rng.random() < 0.25:
+            sub["nullable"] = True
+        props[name] = sub
+    ro = [x for x in order if x in ro]
+    required = gen_required(rng, order, ro) if resource else [k for k in order if rng.random() < 0.5]
+    body = {"type": "object", "properties": props}
+    if required:
+        body["required"] = required
+    if rng.random() < 0.5:
+        body["additionalProperties"] = False
+    return body
+
+
 def gen_document(rng):
     params = []
     path = "/r"
+    resource = rng.random() < 0.5  # body-focused document: parameters kept trivial so that they cannot mask the body
     if rng.random() < 0.6:
         path = "/r/{id}"
-        params.append({"name": "id", "in": "path", "required": True, "schema": gen_string_schema(rng)})
-    for loc, name in (("query", "q"), ("header", "X-A"), ("cookie", "c"), ("query", "r")):
-        if rng.random() < 0.5:
-            params.append({"name": name, "in": loc, "required": rng.random() < 0.6, "schema": gen_string_schema(rng)})
+        params.append({"name": "id", "in": "path", "required": True, "schema": {"type": "string"} if resource else gen_string_schema(rng)})
+    if not resource:
+        for loc, name in (("query", "q"), ("header", "X-A"), ("cookie", "c"), ("query", "r")):
+            if rng.random() < 0.5:
+                params.append({"name": name, "in": loc, "required": rng.random() < 0.6, "schema": gen_string_schema(rng)})
     op = {"parameters": params, "responses": {"200": {"description": "ok"}}}
-    if rng.random() < 0.7:
-        props = {}
-        for name in rng.sample(["a", "b", "c", "d"], rng.randint(1, 4)):
-            sub = gen_string_schema(rng) if rng.random() < 0.6 else {"type": rng.choice(["integer", "boolean"])}
-            if rng.random() < 0.3:
-                sub["nullable"] = True
-            if rng.random() < 0.35:
-                sub["readOnly"] = True
-            props[name] = sub
-        body = {"type": "object", "properties": props, "required": [k for k in props if rng.random() < 0.5]}
-        if rng.random() < 0.6:
-            body["additionalProperties"] = False
-        if not body["required"]:
-            del body["required"]
+    if resource or rng.random() < 0.6:
+        body = gen_object_schema(rng, 0, resource=resource)
         op["requestBody"] = {"required": True, "content": {"application/json": {"schema": body}}}
     return {"openapi": "3.0.2", "info": {"title": "t", "version": "1"}, "paths": {path: {"post": op}}}, path
+
+
+def read_only_names(sch) -> list:
+    return [n for n, sub in (sch.get("properties") or {}).items() if isinstance(sub, dict) and sub.get("readOnly")]
+
+
+def object_levels(declared, value, generation, path=()):
+    """(path, declared object schema, value at that level, implementation's generation schema at that level) for the body and
+    every nested object property that is present in the value."""
+    if not isinstance(declared, dict) or "properties" not in declared or not isinstance(value, dict):
+        return
+    yield path, declared, value, generation
+    for name, sub in declared["properties"].items():
+        if name in value and isinstance(sub, dict) and "properties" in sub and not sub.get("readOnly"):
+            gen_sub = None
+            if isinstance(generation, dict):
+                gen_sub = (generation.get("properties") or {}).get(name)
+            yield from object_levels(sub, value[name], gen_sub, path + (name,))
+
+
+def conforming_witness(rng, sch):
+    """A value a client may send for the declared schema (request view), built by the harness; None = could not build one."""
+    if sch.get("enum"):
+        return sch["enum"][0]
+    t = sch.get("type")
+    if t == "object":
+        out = {}
+        ro = read_only_names(sch)
+        for name in sch.get("required", []):
+            if name in ro:
+                continue
+            w = conforming_witness(rng, sch["properties"][name]) if name in sch.get("properties", {}) else "x"
+            if w is None:
+                return None
+            out[name] = w
+        return out
+    if t == "integer":
+        return 0
+    if t == "boolean":
+        return True
+    if t == "string":
+        mn, mx = sch.get("minLength"), sch.get("maxLength")
+        p = sch.get("pattern")
+        if not p:
+            return "a" * max(mn or 0, 0)
+        try:
+            return satisfiable_sample(rng, to_ast(p), p, mn, mx)
+        except (Unsupported, re.error):
+            return None
+    return None
 
 
 def independent_convert(sch):
@@ -864,7 +984,11 @@ def string_failure_region(sch, value, pending):
     return "PENDING"
 
 
-def stage_end_to_end(chk, n_docs):
+def stage_end_to_end(chk, n_docs, deadline=None):
+    """Documents -> as_strategy() positive draws.  Oracle: (a) no readOnly property in a generated request body, at any object level;
+    (b) every part conforms to the harness' independent request view (python-jsonschema); (c) an operation whose body admits a
+    conforming value (witness built by the harness) is not reported Unsatisfiable.  Read-only failures are classified by what the
+    Coq model of rewrite_properties predicts for that exact key set (see classify_levels)."""
     import jsonschema
     import schemathesis
     from hypothesis.errors import Unsatisfiable
@@ -872,29 +996,52 @@ def stage_end_to_end(chk, n_docs):
     from schemathesis.core import NOT_SET
 
     rng = chk.rng
-    stats = {"documents": 0, "draws": 0, "parts_checked": 0, "failing_parts": 0, "unsatisfiable": 0, "by_region": {}}
-    pending_fail = []  # (what, case, schema, value, region or PENDING + index)
-    pending = []
+    stats = {"documents": 0, "draws": 0, "parts_checked": 0, "failing_parts": 0, "unsatisfiable": 0, "unsatisfiable_with_conforming_witness": 0,
+             "bodies_with_2plus_readonly": 0, "readonly_sent": 0, "by_region": {}}
+    pending_fail = []  # (what, case, region or PENDING, index into pending)
+    pending = []  # pattern failures: (p, mn, mx, value)
+    level_fail = []  # read-only failures: dict per (document, level)
     for _ in range(n_docs):
+        if deadline is not None and time.time() > deadline:
+            stats["stopped_at_deadline"] = True
+            break
         raw, path = gen_document(rng)
+        opdef = raw["paths"][path]["post"]
+        body_schema = opdef["requestBody"]["content"]["application/json"]["schema"] if "requestBody" in opdef else None
+        if body_schema is not None and len(read_only_names(body_schema)) >= 2:
+            stats["bodies_with_2plus_readonly"] += 1
+        generation = None
         try:
             op = schemathesis.openapi.from_dict(raw)[path]["POST"]
+            if body_schema is not None:
+                generation = op.body[0].as_json_schema(op)
             cases = draw_cases(op, rng.getrandbits(32), 8)
         except Unsatisfiable:
             stats["unsatisfiable"] += 1
+            # (c) is the body to blame?  build a conforming value and ask the implementation's own generation schema
+            if body_schema is not None and generation is not None:
+                w = conforming_witness(rng, body_schema)
+                if w is not None and jsonschema.Draft4Validator(independent_convert(body_schema)).is_valid(w):
+                    if not jsonschema.Draft4Validator(generation).is_valid(w):
+                        stats["unsatisfiable_with_conforming_witness"] += 1
+                        for lpath, decl, val, gen in object_levels(body_schema, w, generation):
+                            if gen is None or not jsonschema.Draft4Validator({k: v for k, v in gen.items() if k != "properties"}).is_valid(val):
+                                level_fail.append({"kind": "unsat", "document": raw, "level": list(lpath), "declared": decl, "value": val, "sent": [], "real_rest": False, "witness": w})
+                                break
+                        else:
+                            chk.fail("operation reported Unsatisfiable although a conforming body exists", {"document": raw, "conforming_body": w}, "generation schema rejects it")
             continue
         except Exception as exc:  # noqa: BLE001
             chk.count(f"e2e_error:{type(exc).__name__}")
-            params = raw["paths"][path]["post"]["parameters"]
             region = None
-            for prm in params:
+            for prm in opdef["parameters"]:
                 pat = prm["schema"].get("pattern")
                 if pat and not plain_syntax(pat):
                     region = string_level_region(pat)
             chk.fail(f"operation cannot produce positive cases: {type(exc).__name__}", raw, str(exc)[:200], region=region)
             continue
         stats["documents"] += 1
-        opdef = raw["paths"][path]["post"]
+        reported_levels = set()
         for case in cases:
             stats["draws"] += 1
             if case.meta is not None and case.meta.generation.mode.value != "positive":
@@ -902,8 +1049,7 @@ def stage_end_to_end(chk, n_docs):
             containers = {"path": case.path_parameters or {}, "query": case.query or {}, "header": case.headers or {}, "cookie": case.cookies or {}}
             for prm in opdef["parameters"]:
                 cont = containers[prm["in"]]
-                present = prm["name"] in cont
-                if not present:
+                if prm["name"] not in cont:
                     if prm.get("required"):
                         chk.fail("required parameter missing from a positive case", {"document": raw, "parameter": prm["name"]})
                     continue
@@ -912,46 +1058,98 @@ def stage_end_to_end(chk, n_docs):
                     value = unquote(value)  # the path location percent-encodes inside the strategy (quote_all): read through that coercion
                 stats["parts_checked"] += 1
                 chk.seen({"e2e": [prm["schema"], value]}, True)
-                sch = independent_convert(prm["schema"])
-                if not jsonschema.Draft4Validator(sch).is_valid(value):
+                if not jsonschema.Draft4Validator(independent_convert(prm["schema"])).is_valid(value):
                     stats["failing_parts"] += 1
                     region = string_failure_region(prm["schema"], value, pending)
                     pending_fail.append((f"{prm['in']} parameter {prm['name']} does not conform", {"schema": prm["schema"], "value": value, "in": prm["in"]}, region, len(pending) - 1))
-            if "requestBody" in opdef:
-                body_schema = opdef["requestBody"]["content"]["application/json"]["schema"]
-                body = case.body
-                if body is NOT_SET:
-                    chk.fail("required body missing from a positive case", {"document": raw})
+            if body_schema is None:
+                continue
+            body = case.body
+            if body is NOT_SET:
+                chk.fail("required body missing from a positive case", {"document": raw})
+                continue
+            stats["parts_checked"] += 1
+            chk.seen({"e2e_body": [body_schema, body]}, True)
+            # (a) read-only properties, level by level
+            sent_any = False
+            for lpath, decl, val, gen in object_levels(body_schema, body, generation):
+                sent = [n for n in read_only_names(decl) if n in val]
+                if not sent:
                     continue
-                stats["parts_checked"] += 1
-                chk.seen({"e2e_body": [body_schema, body]}, True)
-                errors = list(jsonschema.Draft4Validator(independent_convert(body_schema)).iter_errors(body))
-                if errors:
-                    stats["failing_parts"] += 1
-                    ro = [n for n, s in body_schema["properties"].items() if s.get("readOnly")]
-                    region = None
-                    idx = -1
-                    if isinstance(body, dict) and any(n in body for n in ro):
-                        region = "readonly_multiple" if len(ro) > 1 else None
-                    elif isinstance(body, dict):
-                        for name, sub in body_schema["properties"].items():
-                            if name in body and not jsonschema.Draft4Validator(independent_convert(sub)).is_valid(body[name]):
-                                region = string_failure_region(sub, body[name], pending)
-                                idx = len(pending) - 1
-                                break
-                    pending_fail.append(("request body does not conform: " + errors[0].message[:120], {"schema": body_schema, "value": body}, region, idx))
+                sent_any = True
+                stats["readonly_sent"] += 1
+                if (tuple(lpath), tuple(sent)) in reported_levels:
+                    continue
+                reported_levels.add((tuple(lpath), tuple(sent)))
+                rest = {k: v for k, v in val.items() if k not in sent}
+                real_rest = None if gen is None else jsonschema.Draft4Validator(gen).is_valid(rest)
+                level_fail.append({"kind": "sent", "document": raw, "level": list(lpath), "declared": decl, "value": val, "sent": sent, "real_rest": real_rest})
+            if sent_any:
+                stats["failing_parts"] += 1
+                continue
+            # (b) conformance to the independent request view
+            errors = list(jsonschema.Draft4Validator(independent_convert(body_schema)).iter_errors(body))
+            if errors:
+                stats["failing_parts"] += 1
+                region, idx = None, -1
+                for lpath, decl, val, gen in object_levels(body_schema, body, generation):
+                    hit = False
+                    for name, sub in decl["properties"].items():
+                        if name in val and "properties" not in sub and not jsonschema.Draft4Validator(independent_convert(sub)).is_valid(val[name]):
+                            region = string_failure_region(sub, val[name], pending)
+                            idx = len(pending) - 1
+                            hit = True
+                            break
+                    if hit:
+                        break
+                pending_fail.append(("request body does not conform: " + errors[0].message[:120], {"document": raw, "value": body}, region, idx))
+    # ---- classification by the Coq model
+    flags = []
     if pending:
-        exprs = []
-        for p, mn, mx, s in pending:
-            ast = c_seq(to_ast(p))
-            exprs.append(REGION_EXPR.format(p=ast, mn=c_optz(mn), mx=c_optz(mx), s=cstr(s)))
-        flags = core.coq_eval(IMPORTS, exprs)
+        flags = core.coq_eval(IMPORTS, [REGION_EXPR.format(p=c_seq(to_ast(p)), mn=c_optz(mn), mx=c_optz(mx), s=cstr(s)) for p, mn, mx, s in pending])
     for what, case, region, idx in pending_fail:
         if region == "PENDING":
             region = classify(flags[idx])
         stats["by_region"][region or "NONE"] = stats["by_region"].get(region or "NONE", 0) + 1
         chk.fail(what, case, None, region=region)
+    classify_levels(chk, level_fail, stats)
     return stats
+
+
+def classify_levels(chk, level_fail, stats):
+    """A body level that carries read-only names `sent` (or a conforming witness the implementation cannot generate) is explained
+    by the known finding F8 (not: {required: [all names]} lets some of them through) only if, for that exact key set, the Coq model
+    of rewrite_properties (i) accepts the keys as generated and (ii) predicts the same verdict as the implementation's own
+    generation schema on the keys WITHOUT the read-only ones.  If the implementation rejects what the model accepts (a read-only
+    property is required / generation impossible) the failure is outside every region."""
+    if not level_fail:
+        return
+    exprs = []
+    for lf in level_fail:
+        d = lf["declared"]
+        order = [str(k) for k in d["properties"]]
+        ro = read_only_names(d)
+        required = [str(k) for k in d.get("required", [])]
+        closed = d.get("additionalProperties") is False
+        keys = [str(k) for k in lf["value"]]
+        rest = [k for k in keys if k not in lf["sent"]]
+        exprs.append(f"({c_accepts(order, required, ro, closed, keys)}, {c_accepts(order, required, ro, closed, rest)})")
+    model = core.coq_eval(IMPORTS, exprs)
+    for lf, (m_all, m_rest) in zip(level_fail, model):
+        case = {"document": lf["document"], "level": lf["level"], "value": lf["value"], "read_only_sent": lf["sent"]}
+        detail = {"model_accepts_value": bool(m_all), "model_accepts_without_readonly": bool(m_rest), "implementation_accepts_without_readonly": lf["real_rest"]}
+        if lf["kind"] == "unsat":
+            what = "operation reported Unsatisfiable although a conforming body exists (the generation schema rejects it, the model of the converter accepts it)"
+            case["conforming_body"] = lf["witness"]
+            region = None
+        else:
+            what = f"readOnly propert{'ies' if len(lf['sent']) > 1 else 'y'} {lf['sent']} sent in a positive request body"
+            explained = bool(m_all) and lf["real_rest"] is not None and bool(m_rest) == lf["real_rest"]
+            region = "readonly_multiple" if explained else None
+            if not explained and lf["real_rest"] is False and m_rest:
+                what += " - and REQUIRED by the schema the implementation generates from"
+        stats["by_region"][region or "NONE"] = stats["by_region"].get(region or "NONE", 0) + 1
+        chk.fail(what, case, detail, region=region)
 
 
 # ----------------------------------------------------------------------------------------
@@ -1039,12 +1237,15 @@ def run(chk: core.Check):
 
     chk.stages["correspondence_update_pattern_in_schema"] = stage_schema_keywords(chk, cases[: (700 if quick else 6000)])
     chk.stages["correspondence_kernel"] = stage_kernel(chk, 1500 if quick else 20000)
-    chk.stages["correspondence_forbid_properties"] = stage_forbid(chk, 300 if quick else 4000)
+    chk.stages["correspondence_rewrite_properties"] = stage_rewrite_properties(chk, 500 if quick else 6000)
 
+    # a broken proof / correspondence must try harder to find a concrete failing input, but within a wall-clock cap (quick: ~4 min in all)
     boost = 10 if chk.broken else 1
-    chk.stages["search_rewriter"] = stage_rewrite_search(chk, rewritten, (6 if quick else 12) * boost)
-    chk.stages["search_string_level"] = stage_string_level(chk, (400 if quick else 6000) * boost)
-    chk.stages["search_end_to_end"] = stage_end_to_end(chk, (40 if quick else 700) * boost)
+    cap = (225 if quick else 1500) if chk.broken else None
+    t0 = chk.t0
+    chk.stages["search_rewriter"] = stage_rewrite_search(chk, rewritten, (6 if quick else 12) * boost, deadline=cap and t0 + cap * 0.45)
+    chk.stages["search_string_level"] = stage_string_level(chk, (400 if quick else 6000) * boost, deadline=cap and t0 + cap * 0.6)
+    chk.stages["search_end_to_end"] = stage_end_to_end(chk, (45 if quick else 700) * boost, deadline=cap and t0 + cap)
 
     for f in chk.findings:
         chk.known(f, witness_fails(f["witness"]))
